@@ -5,11 +5,28 @@
 
 package dtlcp
 
-import "net"
+import (
+	"net"
+
+	x509 "github.com/emmansun/gmsm/smx509"
+)
 
 // VerifNewSession builds a SessionState with the given id and master secret.
 func VerifNewSession(id, master []byte, vers, suite uint16) *SessionState {
 	return &SessionState{sessionId: id, masterSecret: master, vers: vers, cipherSuite: suite}
+}
+
+// VerifNewSessionWithCerts is VerifNewSession plus the recorded peer certificates (DER).
+func VerifNewSessionWithCerts(id, master []byte, vers, suite uint16, certs [][]byte) (*SessionState, error) {
+	s := VerifNewSession(id, master, vers, suite)
+	for _, der := range certs {
+		c, err := x509.ParseCertificate(der)
+		if err != nil {
+			return nil, err
+		}
+		s.peerCertificates = append(s.peerCertificates, c)
+	}
+	return s, nil
 }
 
 // VerifSessionID returns the session identifier.
